@@ -16,7 +16,7 @@
 #include <dune/common/sllist.hh>
 
 #ifdef C11_SL_DEFAULT_ALLOC
-using SL = Dune::SLList<int>;                 // default allocator: needs push_front to compile (see probe_sllist.cc)
+using SL0 = Dune::SLList<int>;                 // default allocator: needs push_front to compile (see probe_sllist.cc)
 #else
 // std::allocator lost allocate(n, hint) in C++20, which SLList::push_front of the snapshot still calls;
 // this allocator only adds that overload so that the remaining interface can be exercised on such a tree.
@@ -26,55 +26,74 @@ template<class T> struct C11Alloc : std::allocator<T> {
   T* allocate(std::size_t n) { return std::allocator<T>::allocate(n); }
   T* allocate(std::size_t n, const void*) { return std::allocator<T>::allocate(n); }
 };
-using SL = Dune::SLList<int, C11Alloc<int> >;
+using SL0 = Dune::SLList<int, C11Alloc<int> >;
 #endif
 
+template<class SL>
 static std::string obs1(const SL& l)
 {
   std::vector<int> v;
-  for (SL::const_iterator i = l.begin(), e = l.end(); i != e; ++i) v.push_back(*i);
+  for (typename SL::const_iterator i = l.begin(), e = l.end(); i != e; ++i) v.push_back((int) *i);
   return std::to_string(l.size()) + "," + (l.empty() ? "1" : "0") + "[" + c11::seq_str(v.begin(), v.end()) + "]";
 }
 
-static void run(const std::vector<std::string>& ops)
+template<class SL>
+static void run_t(const std::vector<std::string>& ops)
 {
+  using T = typename SL::MemberType;
+  {
   SL L[2];
   for (const auto& o : ops) {
     auto t = c11::split(o, ':');
     std::string flags, itpos = "_";                 // where the ModifyIterator stands afterwards: _ none used, - endModify(), else *it
     int i = t.size() > 1 ? (int) c11::num(t[1]) : 0;
     SL& l = L[i];
-    if (t[0] == "pb") l.push_back((int) c11::num(t[2]));
-    else if (t[0] == "pf") l.push_front((int) c11::num(t[2]));
+    auto elem = [&](long k) -> const T& { typename SL::const_iterator c = static_cast<const SL&>(l).begin(); for (; k > 0; --k) ++c; return *c; };
+    if (t[0] == "pb") l.push_back(T((int) c11::num(t[2])));
+    else if (t[0] == "pf") l.push_front(T((int) c11::num(t[2])));
+    else if (t[0] == "pbe") l.push_back(elem(c11::num(t[2])));                    // ALIASING: the argument is an element of the list itself
+    else if (t[0] == "pfe") l.push_front(elem(c11::num(t[2])));
+    else if (t[0] == "minse") {                                                   // ModifyIterator::insert of an element of the same list
+      typename SL::ModifyIterator it = l.beginModify();
+      for (long k = c11::num(t[2]); k > 0; --k) ++it;
+      it.insert(elem(c11::num(t[3])));
+      itpos = (it == l.endModify()) ? std::string("-") : std::to_string((int) *it);
+    }
     else if (t[0] == "pop") l.pop_front();
     else if (t[0] == "cl") l.clear();
     else if (t[0] == "mins") {
-      SL::ModifyIterator it = l.beginModify();
+      typename SL::ModifyIterator it = l.beginModify();
       for (long k = c11::num(t[2]); k > 0; --k) ++it;
-      bool atend = (it == l.endModify()); int before = atend ? 0 : *it;
-      it.insert((int) c11::num(t[3]));
-      if (atend ? !(it == l.endModify()) : (*it != before)) flags += "!mins";   // "will point to the same element as before"
-      itpos = (it == l.endModify()) ? std::string("-") : std::to_string(*it);
+      bool atend = (it == l.endModify()); int before = atend ? 0 : (int) *it;
+      it.insert(T((int) c11::num(t[3])));
+      if (atend ? !(it == l.endModify()) : ((int) *it != before)) flags += "!mins";   // "will point to the same element as before"
+      itpos = (it == l.endModify()) ? std::string("-") : std::to_string((int) *it);
     }
     else if (t[0] == "mrem") {
-      SL::ModifyIterator it = l.beginModify();
+      typename SL::ModifyIterator it = l.beginModify();
       long k = c11::num(t[2]);
       for (long j = k; j > 0; --j) ++it;
       it.remove();
       // "positioned at the next position after the deletion"
-      SL::const_iterator c = static_cast<const SL&>(l).begin(); for (long j = k; j > 0; --j) ++c;
-      if (c == static_cast<const SL&>(l).end() ? !(it == l.endModify()) : (it == l.endModify() || *it != *c)) flags += "!mrem";
-      itpos = (it == l.endModify()) ? std::string("-") : std::to_string(*it);
+      typename SL::const_iterator c = static_cast<const SL&>(l).begin(); for (long j = k; j > 0; --j) ++c;
+      if (c == static_cast<const SL&>(l).end() ? !(it == l.endModify()) : (it == l.endModify() || (int) *it != (int) *c)) flags += "!mrem";
+      itpos = (it == l.endModify()) ? std::string("-") : std::to_string((int) *it);
     }
     else if (t[0] == "mend") {
-      SL::ModifyIterator it = l.endModify(); it.insert((int) c11::num(t[2]));
-      itpos = (it == l.endModify()) ? std::string("-") : std::to_string(*it);
+      typename SL::ModifyIterator it = l.endModify(); it.insert(T((int) c11::num(t[2])));
+      itpos = (it == l.endModify()) ? std::string("-") : std::to_string((int) *it);
     }
-    else if (t[0] == "iaft") { SL::iterator it = l.begin(); for (long k = c11::num(t[2]); k > 0; --k) ++it; it.insertAfter((int) c11::num(t[3])); }
-    else if (t[0] == "idel") { SL::iterator it = l.begin(); for (long k = c11::num(t[2]); k > 0; --k) ++it; it.deleteNext(); }
+    else if (t[0] == "iaft") { typename SL::iterator it = l.begin(); for (long k = c11::num(t[2]); k > 0; --k) ++it; it.insertAfter(T((int) c11::num(t[3]))); }
+    else if (t[0] == "idel") { typename SL::iterator it = l.begin(); for (long k = c11::num(t[2]); k > 0; --k) ++it; it.deleteNext(); }
     else if (t[0] == "asg") l = L[1 - i];
     else if (t[0] == "self") { SL& alias = L[i]; l = alias; }
-    else if (t[0] == "cpy") { SL tmp(l); if (!(tmp == l) || tmp != l) flags += "!cpy"; L[1 - i] = tmp; }
+    else if (t[0] == "cpy") {
+      SL tmp(l); if (!(tmp == l) || tmp != l) flags += "!cpy"; L[1 - i] = tmp;
+      std::vector<int> before; for (typename SL::const_iterator x = static_cast<const SL&>(l).begin(); x != static_cast<const SL&>(l).end(); ++x) before.push_back((int) *x);
+      tmp.push_back(T(-1)); tmp.push_front(T(-2)); tmp.pop_front(); if (!tmp.empty()) tmp.beginModify().remove();   // the source is unaffected
+      std::vector<int> after; for (typename SL::const_iterator x = static_cast<const SL&>(l).begin(); x != static_cast<const SL&>(l).end(); ++x) after.push_back((int) *x);
+      if (before != after) flags += "!cpysrc";
+    }
     else { c11::step_done("UNKNOWN-OP"); continue; }
 #ifdef C11_DEEP
     {
@@ -94,35 +113,41 @@ static void run(const std::vector<std::string>& ops)
     // post-increment), and operator<<
     for (int q = 0; q < 2; ++q) {
       SL& m = L[q]; const SL& c = L[q];
-      SL::iterator it = m.begin(); SL::const_iterator cit = c.begin(); SL::ModifyIterator mit = m.beginModify();
+      typename SL::iterator it = m.begin(); typename SL::const_iterator cit = c.begin(); typename SL::ModifyIterator mit = m.beginModify();
       int cnt = 0; bool ok = true;
       while (cit != c.end()) {
         if (it == m.end() || mit == m.endModify()) { ok = false; break; }
-        if (!(it == cit) || !(it == mit) || !(mit == it) || !(mit == cit) || !(mit == mit) || !(cit == SL::const_iterator(it))) ok = false;
-        if (*it != *cit || *mit != *cit || *SL::const_iterator(mit) != *cit || *SL::iterator(mit) != *cit) ok = false;
-        SL::iterator oit = it++; SL::const_iterator ocit = cit++; SL::ModifyIterator omit = mit++;
+        if (!(it == cit) || !(it == mit) || !(mit == it) || !(mit == cit) || !(mit == mit) || !(cit == typename SL::const_iterator(it))) ok = false;
+        if ((int) *it != (int) *cit || (int) *mit != (int) *cit || (int) *typename SL::const_iterator(mit) != (int) *cit || (int) *typename SL::iterator(mit) != (int) *cit) ok = false;
+        typename SL::iterator oit = it++; typename SL::const_iterator ocit = cit++; typename SL::ModifyIterator omit = mit++;
         if (!(oit == ocit) || !(omit == ocit) || (it != m.end() && oit == it)) ok = false;
         ++cnt;
       }
       if (!ok || !(it == m.end()) || !(mit == m.endModify()) || cnt != c.size()) flags += "!walk";
       std::ostringstream os; os << c; std::vector<int> pv; std::string tok; std::istringstream is(os.str());
       while (is >> tok) { bool num = !tok.empty(); for (char ch : tok) if (!(ch >= '0' && ch <= '9') && ch != '-') num = false; if (num) pv.push_back(std::stoi(tok)); }
-      std::vector<int> cv; for (SL::const_iterator x = c.begin(); x != c.end(); ++x) cv.push_back(*x);
+      std::vector<int> cv; for (typename SL::const_iterator x = c.begin(); x != c.end(); ++x) cv.push_back((int) *x);
       if (pv != cv) flags += "!print";
     }
     // mutable iteration sees the same as const iteration
     for (int q = 0; q < 2; ++q) {
       std::vector<int> a, b;
-      for (SL::iterator x = L[q].begin(); x != L[q].end(); ++x) a.push_back(*x);
+      for (typename SL::iterator x = L[q].begin(); x != L[q].end(); ++x) a.push_back((int) *x);
       const SL& c = L[q];
-      for (SL::const_iterator x = c.begin(); x != c.end(); ++x) b.push_back(*x);
+      for (typename SL::const_iterator x = c.begin(); x != c.end(); ++x) b.push_back((int) *x);
       if (a != b) flags += "!iter";
     }
+    // ROLES / self arguments: every list as receiver and as argument of the comparisons, and compared with itself
+    if ((L[1] == L[0]) != (L[0] == L[1]) || (L[1] != L[0]) != (L[0] != L[1]) || !(L[0] == L[0]) || (L[1] != L[1])) flags += "!cmproles";
     c11::step_done(obs1(L[0]) + " " + obs1(L[1]) + " " + (L[0] == L[1] ? "1" : "0") + (L[0] != L[1] ? "1" : "0") + " it=" + itpos + flags);
   }
+}
+  c11::leak_step();
 }
 
 int main(int argc, char** argv)
 {
-  return c11::main_loop(argc, argv, "sl", [](int, const std::vector<std::string>& ops) { run(ops); });
+  // element-type family: param 0 = int, 2 = instance-tracking element type
+  return c11::main_loop(argc, argv, "sl", [](int k, const std::vector<std::string>& ops) {
+    if (k == 2) run_t<Dune::SLList<c11::Tracked> >(ops); else run_t<SL0>(ops); });
 }
